@@ -291,7 +291,10 @@ func drawRequest(w *simrt.Tape) (*request, string) {
 	kind := w.Choose(20)
 	switch kind {
 	case 17:
-		return &request{Name: "NoSuchModel" + fmt.Sprint(w.Choose(3))}, "unknown-model"
+		// (the name is echoed in the answer: characters that need escaping in JSON must still give a
+		// valid document)
+		odd := []string{"", "", "", "\x00", "\x07 bell", "<b>&amp;</b>", "\x7f", "\"quoted\"\\", "\u2028\U0001F4A7"}[w.Choose(9)]
+		return &request{Name: "NoSuchModel" + fmt.Sprint(w.Choose(3)) + odd}, "unknown-model"
 	case 18:
 		return &request{Parameters: []reqValue{{"x", 1}}}, "no-name"
 	case 19:
@@ -414,6 +417,24 @@ func engineJSON(rc *RunCtx) *Outcome {
 		doc = pretty.Bytes()
 		if w.Bool(30) {
 			doc = bytes.ReplaceAll(doc, []byte("\n"), []byte("\r\n")) // a file written on another platform
+		}
+	}
+	if w.Bool(15) {
+		// members the runner does not know (a comment, an id, units inside an entry): they are
+		// ignored, the request is otherwise the same
+		var generic map[string]interface{}
+		if json.Unmarshal(doc, &generic) == nil && generic != nil {
+			generic["Comment"] = "calibration run 7"
+			generic["Id"] = 7
+			if ins, ok := generic["Inputs"].([]interface{}); ok && len(ins) > 0 {
+				if e, ok := ins[0].(map[string]interface{}); ok {
+					e["Units"] = "mm"
+				}
+			}
+			if d2, err := json.Marshal(generic); err == nil {
+				doc = d2
+				o.probe("request_with_foreign_members")
+			}
 		}
 	}
 	if w.Bool(25) {
